@@ -3,6 +3,12 @@ PROP = dict(
         module='kernel', pkg='device/tty', pkgname='tty', harness=['tty/c17_test.go', 'tty/c18_test.go'],
         extra_overlay={'kernel/device/video/console/zz_verif_c18_export.go': 'console/c18_export.go'},
         n=dict(quick=400, thorough=8000),
+        extra_runs=[dict(module='kernel', pkg='hal', pkgname='hal', harness=['hal/c18hal_test.go'],
+                         extra_overlay={'kernel/device/video/console/zz_verif_c18_export.go': 'console/c18_export.go',
+                                        'kernel/device/video/console/zz_verif_c19_export.go': 'console/c19_export.go',
+                                        'kernel/multiboot/zz_verif_c19_export.go': 'multiboot/c19_export.go',
+                                        'kernel/device/tty/zz_verif_c18_export.go': 'tty/c18_export.go'},
+                         test='TestVerifC18Hal', n=dict(quick=20, thorough=300))],
         nontrivial=r'^W [0-9a-f]+ \| \d+ \d+ \d+ 1 ',
         rule='one evaluation = one AttachTo / Write / SetCursorPosition / SetState call on the real VT attached to a mock '
              'grid console, the real VgaTextConsole or the real VesaFbConsole (host-memory framebuffer), followed by a '
